@@ -114,13 +114,21 @@ def world():
         return Marker(reg_deser, data)
 
     JSONSerializableTypeRegistry().register(Reg, reg_ser, reg_deser)
+    registered = {id(Reg): reg_deser}
+    # unregistered subclasses of registered types: the tag names a class that is NOT deserialisable
+    TaggedUUID = type("TaggedUUID", (uuid.UUID,), {"__module__": "c19w.sub"})
+    RegSubSub = type("RegSubSub", (RegSub,), {"__module__": "c19w.sub"})
+    setattr(sub, "TaggedUUID", TaggedUUID)
+    setattr(sub, "RegSubSub", RegSubSub)
     # a class that is BOTH a SubclassJSONSerializer and registered: the Spec gives precedence to the class's own _from_json
     SerReg = mkser("SerReg", (SubclassJSONSerializer,), "c19w.sub")
     JSONSerializableTypeRegistry().register(SerReg, reg_ser, reg_deser)
+    registered[id(SerReg)] = reg_deser
     setattr(sub, "SerReg", SerReg)
     # abstract (no _from_json) AND registered: K_abstract_registered
     NoImplReg = mkser("NoImplReg", (SubclassJSONSerializer,), "c19w.sub", impl=False)
     JSONSerializableTypeRegistry().register(NoImplReg, reg_ser, reg_deser)
+    registered[id(NoImplReg)] = reg_deser
     setattr(sub, "NoImplReg", NoImplReg)
     for k, v in dict(SerA=SerA, SerB=SerB, NoImpl=NoImpl, NoImpl2=NoImpl2, Plain=Plain, Reg=Reg, RegSub=RegSub, Meta=Meta,
                      WithMeta=WithMeta, Alias=SerA, func=lambda: None, T=TypeVar("T"), const=5, none=None,
@@ -131,7 +139,7 @@ def world():
     setattr(sub, "", SerA)          # attribute with the empty name: tag "c19w.sub."
     pk.SerC = SerC
     pk.Plain = Plain
-    _WORLD = {"reg_deser": reg_deser}
+    _WORLD = {"reg_deser": reg_deser, "registered": registered, "keep": [TaggedUUID, RegSubSub]}
     return _WORLD
 
 
@@ -212,19 +220,42 @@ def probe(descr) -> Dict[str, Any]:
         if name != "TypeError" or isinstance(target, type):
             o["undocumented"].append(f"issubclass({tag!r}) raised {name}")
         b = False
+    # which deserialiser is registered for EXACTLY this class: observed independently of the registry's lookup code
+    # (the harness's own register() calls, then an identity scan of the registry's table; never get_deserializer itself)
+    d = None
     try:
-        d = JSONSerializableTypeRegistry().get_deserializer(target)
-    except TypeError:  # unhashable object as dict key
-        d = None
+        d = world()["registered"].get(id(target))
+        if d is None:
+            table = getattr(JSONSerializableTypeRegistry(), "_deserializers", None)
+            if isinstance(table, dict):
+                for k, f in list(table.items()):
+                    if k is target:
+                        d = f
+                        break
+    except BaseException as e:  # noqa
+        o["undocumented"].append(f"registry inspection raised {type(e).__name__}")
     if d is not None:
         o["regs"].append((tid, INTERN(d)))
     if b:
-        impl = getattr(target._from_json, "__func__", None) is not SubclassJSONSerializer._from_json.__func__
+        try:
+            impl = getattr(target._from_json, "__func__", None) is not SubclassJSONSerializer._from_json.__func__
+        except BaseException as e:  # noqa
+            o["undocumented"].append(f"inspection of _from_json raised {type(e).__name__}")
+            impl = True
         if impl:
             o["impl"].append(tid)
         else:
             o["abstract"] = True
     return o
+
+
+def safe_probe(descr) -> Dict[str, Any]:
+    """a probe that fails is an observation ('the harness could not ask'), not a crash of the check"""
+    try:
+        return probe(descr)
+    except BaseException as e:  # noqa
+        return {"imports": [], "attrs": [], "types": [], "subs": [], "regs": [], "impl": [], "abstract": False, "stage": "probe-error",
+                "undocumented": [f"probe raised {type(e).__name__}: {e}"]}
 
 
 def document(descr) -> dict:
@@ -301,7 +332,7 @@ def tag_table(tier: str, seed: int) -> List[dict]:
              "__main__.x", "__main__.__name__", "CON.x", "nul.x", "x" * 3000 + ".y", "os." + "y" * 3000]
     # objects of every kind in the harness world and in the standard library
     names = ["c19w.sub.SerA", "c19w.sub.SerB", "c19w.SerC", "c19w.sub.NoImpl", "c19w.sub.NoImpl2", "c19w.sub.Plain", "c19w.Plain",
-             "c19w.sub.Reg", "c19w.sub.RegSub", "c19w.sub.SerReg", "c19w.sub.NoImplReg", "c19w.sub.Meta", "c19w.sub.WithMeta", "c19w.sub.Alias", "c19w.sub.func",
+             "c19w.sub.Reg", "c19w.sub.RegSub", "c19w.sub.RegSubSub", "c19w.sub.TaggedUUID", "c19w.sub.SerReg", "c19w.sub.NoImplReg", "c19w.sub.Meta", "c19w.sub.WithMeta", "c19w.sub.Alias", "c19w.sub.func",
              "c19w.sub.T", "c19w.sub.const", "c19w.sub.none", "c19w.sub.instance", "c19w.sub.text", "c19w.sub.lst", "c19w.sub.UUID",
              "c19w.sub.é", "c19w.sub.a b", "c19w.sub.", "c19w.sub", "c19w.nosuch.SerA", "c19w.sub.nosuch", "c19w.sub.SerA.x",
              "c19w.sub.SerA._from_json", "c19w.sub.sera", "C19W.sub.SerA", "c19w.sub.__name__", "c19w.sub.__dict__", "c19w.sub.__class__",
@@ -430,7 +461,7 @@ def run(tier: str, seed: int, replay=None) -> int:
         items = [("replay", replay["case"])]
     else:
         items = corpus + [("gen", d) for d in tag_table(tier, seed)]
-    probes = [probe(d) for _, d in items]
+    probes = [safe_probe(d) for _, d in items]
     impls = [run_impl(d) for _, d in items]
     pairs = [(case_term(d, pr), core.sx(im)) for (_, d), pr, im in zip(items, probes, impls)]
     if model_ok:
@@ -488,7 +519,7 @@ def run(tier: str, seed: int, replay=None) -> int:
         else:
             for d in failing:
                 if not any(d is b[0] for b in bad):
-                    bad.append((d, probe(d), run_impl(d), 3))
+                    bad.append((d, safe_probe(d), run_impl(d), 3))
                 rep.note(f"regression of fixed finding {f.fid} on {d}")
 
     for d, pr, im, code in bad[:5]:
